@@ -43,6 +43,9 @@ type Shiftf struct {
 
 // Call the function with the arguments provided.
 func (f *Shiftf) Call(s *slip.Scope, args slip.List, depth int) slip.Object {
+	if len(args) == 0 {
+		return nil // no places, nothing to move
+	}
 	values := make(slip.List, len(args))
 	for i := range args {
 		values[i] = slip.EvalArg(s, args, i, depth)
